@@ -106,7 +106,8 @@ def run_stages(stages, events, deepcopy_input=True):
 
 
 def write_trace(path, events, extra=None):
-    d = {"traceEvents": events}
+    # a dict is a complete trace document (e.g. a torch-profiler file with deviceProperties): written as it is
+    d = dict(events) if isinstance(events, dict) else {"traceEvents": events}
     if extra:
         d.update(extra)
     with open(path, "w") as fh:
